@@ -18,6 +18,37 @@ ELEMENTS = [('ElementLineP0', False), ('ElementLineP1', True), ('ElementLineP2',
             ('ElementQuad0', False), ('ElementQuad1', True), ('ElementQuad2', True),
             ('ElementHex0', False), ('ElementHex1', True), ('ElementWedge1', False)]
 THOROUGH_ONLY = [('ElementHex2', False), ('ElementQuadS2', False)]
+# reference stiffness tensors, load vectors (monomial data of degree <= LOADK) and facet mass matrices
+TENSOR = ['ElementLineP1', 'ElementLineP2', 'ElementTriP1', 'ElementTriP2', 'ElementTetP1', 'ElementTetP2']
+FACETS = ['ElementTriP1', 'ElementTriP2', 'ElementTetP1', 'ElementTetP2']
+LOADK = 2
+
+
+def monos_upto(d, k):
+    import itertools
+    return [e for e in itertools.product(range(k + 1), repeat=d) if sum(e) <= k]
+
+
+def compose(a, origin, cols):
+    """a (dict exps -> Fraction, variables x_i) with x = origin + sum_j cols[j] * s_j  ->  dict in the s_j"""
+    m = len(cols)
+    out = {}
+    for e, c in a.items():
+        term = {tuple([0] * m): Fraction(c)}
+        for i, ei in enumerate(e):
+            lin = {}
+            if origin[i] != 0:
+                lin[tuple([0] * m)] = Fraction(origin[i])
+            for j in range(m):
+                if cols[j][i] != 0:
+                    k = [0] * m
+                    k[j] = 1
+                    lin[tuple(k)] = Fraction(cols[j][i])
+            for _ in range(ei):
+                term = tmul(term, lin)
+        for k, v in term.items():
+            out[k] = out.get(k, 0) + v
+    return {k: v for k, v in out.items() if v != 0}
 
 
 def mono_int(shape, e):
@@ -80,6 +111,23 @@ class RefElem:
         self.vals = [terms(p) for p in self.tr.values()]
         n = len(self.vals)
         self.mass = [[tint(self.shape, tmul(self.vals[i], self.vals[j])) for j in range(n)] for i in range(n)]
+        self.tensor = self.loads = self.facets = None
+        if name in TENSOR:
+            d = self.dim
+            self.tensor = [[[[tint(self.shape, tmul(tderiv(self.vals[i], k), tderiv(self.vals[j], l))) for j in range(n)]
+                             for i in range(n)] for l in range(d)] for k in range(d)]
+            self.loadmonos = monos_upto(d, LOADK)
+            self.loads = [[tint(self.shape, tmul({tuple(m): Fraction(1)}, self.vals[i])) for i in range(n)] for m in self.loadmonos]
+        if name in FACETS:
+            import numpy as np
+            P = np.asarray(self.elem.refdom.p)
+            self.facetmaps, self.facets = [], []
+            for fv in self.elem.refdom.facets:
+                o = [Fraction(float(P[i, fv[0]])) for i in range(self.dim)]
+                cols = [[Fraction(float(P[i, v])) - o[i] for i in range(self.dim)] for v in fv[1:]]
+                self.facetmaps.append((o, cols))
+                tv = [compose(a, o, cols) for a in self.vals]
+                self.facets.append([[tint([self.dim - 1], tmul(tv[i], tv[j])) for j in range(n)] for i in range(n)])
         self.stiff = None
         if want_stiff:
             self.stiff = [[sum((tint(self.shape, tmul(tderiv(self.vals[i], k), tderiv(self.vals[j], k))) for k in range(self.dim)),
@@ -103,6 +151,35 @@ class RefElem:
                f'Proof. vm_cast_no_check (eq_refl true). Qed.',
                f'Lemma ref_{n}_ok : refelem_ok (gen_intorder None) ref_{n} = true.\n'
                f'Proof. unfold refelem_ok. apply andb_true_iff. split; [exact mass_ref_{n}_exact|exact products_{n}_covered]. Qed.']
+        if self.tensor is not None:
+            tl = '[' + ';\n  '.join('[' + ';\n   '.join(mat(self.tensor[k][l]) for l in range(self.dim)) + ']' for k in range(self.dim)) + ']'
+            ml = '[' + '; '.join('[' + '; '.join(f'{x}%nat' for x in m) + ']' for m in self.loadmonos) + ']'
+            out += [f'Definition tensor_{n} : list (list (list (list Q))) :=\n  {tl}.',
+                    f'Lemma tensor_ref_{n}_exact : tensors_eqb (tensors_ref {self.coq_shape()} vals_{n}) tensor_{n} = true.\n'
+                    f'Proof. vm_cast_no_check (eq_refl true). Qed.',
+                    f'Definition loadmonos_{n} : list mono := {ml}.',
+                    f'Definition loads_{n} : list (list Q) :=\n   {mat(self.loads)}.',
+                    f'Lemma load_ref_{n}_exact : loads_eqb (map (load_ref {self.coq_shape()} vals_{n}) loadmonos_{n}) loads_{n} = true.\n'
+                    f'Proof. vm_cast_no_check (eq_refl true). Qed.',
+                    f'Lemma load_products_{n}_covered : load_products_ok {self.coq_shape()} ({LOADK} + {self.maxdeg})%nat vals_{n} loadmonos_{n} = true.\n'
+                    f'Proof. vm_cast_no_check (eq_refl true). Qed.']
+        if self.facets is not None:
+            def lin(o, cols):
+                ps = []
+                for i in range(self.dim):
+                    terms_ = []
+                    if o[i] != 0:
+                        terms_.append(f'({cq(o[i])}, [])')
+                    for j, c in enumerate(cols):
+                        if c[i] != 0:
+                            terms_.append(f'({cq(c[i])}, [' + '; '.join('1%nat' if jj == j else '0%nat' for jj in range(j + 1)) + '])')
+                    ps.append('[' + '; '.join(terms_) + ']')
+                return '[' + '; '.join(ps) + ']'
+            fm = '[' + ';\n   '.join(lin(o, cols) for o, cols in self.facetmaps) + ']'
+            out += [f'Definition facetmaps_{n} : list (list poly) :=\n   {fm}.',
+                    f'Definition facetmass_{n} : list (list (list Q)) :=\n  [' + ';\n   '.join(mat(M) for M in self.facets) + '].',
+                    f'Lemma facet_mass_{n}_exact : list_eqb qmat_eqb (map (fun F => facet_mass_ref [{self.dim - 1}%nat] F vals_{n}) facetmaps_{n}) facetmass_{n} = true.\n'
+                    f'Proof. vm_cast_no_check (eq_refl true). Qed.']
         if self.stiff is not None:
             out += [f'Definition stiff_{n} : list (list Q) :=\n   {mat(self.stiff)}.',
                     f'Lemma stiff_ref_{n}_exact : qmat_eqb (stiff_ref {self.coq_shape()} vals_{n}) stiff_{n} = true.\n'
@@ -129,4 +206,25 @@ def generate(tier):
             'Lemma stiff_elements_ok : Forall (fun e => qmat_eqb (stiff_ref (fst (fst e)) (snd (fst e))) (snd e) = true) stiff_elements.\n'
             'Proof.\n  unfold stiff_elements.\n'
             + ''.join(f'  apply Forall_cons; [exact stiff_ref_{e.name}_exact|].\n' for e in st) + '  apply Forall_nil.\nQed.\n')
+    te = [e for e in elems if e.tensor is not None]
+    txt += ('Definition tensor_elements : list (shape * list poly * list (list (list (list Q)))) := ['
+            + '; '.join(f'({e.coq_shape()}, vals_{e.name}, tensor_{e.name})' for e in te) + '].\n'
+            'Lemma tensor_elements_ok : Forall (fun e => tensors_eqb (tensors_ref (fst (fst e)) (snd (fst e))) (snd e) = true) tensor_elements.\n'
+            'Proof.\n  unfold tensor_elements.\n'
+            + ''.join(f'  apply Forall_cons; [exact tensor_ref_{e.name}_exact|].\n' for e in te) + '  apply Forall_nil.\nQed.\n')
+    txt += ('(* (cell, order = LOADK + maxdeg, shape functions, data monomials, literal load vectors) *)\n'
+            'Definition load_elements : list (shape * nat * list poly * list mono * list (list Q)) := ['
+            + '; '.join(f'({e.coq_shape()}, ({LOADK} + {e.maxdeg})%nat, vals_{e.name}, loadmonos_{e.name}, loads_{e.name})' for e in te) + '].\n'
+            'Definition load_elem_ok (e : shape * nat * list poly * list mono * list (list Q)) : bool :=\n'
+            "  let '(s, n, vals, ms, lits) := e in loads_eqb (map (load_ref s vals) ms) lits && load_products_ok s n vals ms.\n"
+            'Lemma load_elements_ok : Forall (fun e => load_elem_ok e = true) load_elements.\nProof.\n  unfold load_elements.\n'
+            + ''.join(f'  apply Forall_cons; [unfold load_elem_ok; apply andb_true_iff; split; [exact load_ref_{e.name}_exact|exact load_products_{e.name}_covered]|].\n'
+                      for e in te) + '  apply Forall_nil.\nQed.\n')
+    fe = [e for e in elems if e.facets is not None]
+    txt += ('(* (reference facet, parametrisations of the local facets, shape functions, literal facet mass matrices) *)\n'
+            'Definition facet_elements : list (shape * list (list poly) * list poly * list (list (list Q))) := ['
+            + '; '.join(f'([{e.dim - 1}%nat], facetmaps_{e.name}, vals_{e.name}, facetmass_{e.name})' for e in fe) + '].\n'
+            'Lemma facet_elements_ok : Forall (fun e => list_eqb qmat_eqb (map (fun F => facet_mass_ref (fst (fst (fst e))) F (snd (fst e))) (snd (fst (fst e)))) (snd e) = true) facet_elements.\n'
+            'Proof.\n  unfold facet_elements.\n'
+            + ''.join(f'  apply Forall_cons; [exact facet_mass_{e.name}_exact|].\n' for e in fe) + '  apply Forall_nil.\nQed.\n')
     return txt, elems
